@@ -57,9 +57,12 @@ def gen_plan(seed, tier):
            batch_size=r.choice([1, 2, 5, 10]))
   if small:
     p["batch_size"] = r.choice([10, 20, 7])
+  tiny_basis = substream(seed, "c15-tiny").random() < 0.1
   bk = r.choice(["array", "array", "generated"])
   if bk == "array":
     nb = r.randint(max(2, d), 3 * d + 2)
+    if tiny_basis:
+      nb = substream(seed, "c15-tiny2").choice([1, 1, 2])    # a one- or two-element basis is a basis
     p["basis"] = {"$arr": dict(kind="basis", seed=r.randrange(10**6), nb=nb, d=d,
                                unit=r.random() < 0.7)}
     from ..estimators import gen_layout
@@ -85,7 +88,12 @@ def gen_plan(seed, tier):
   rs = dict(kind=r.choice(["int", "sim", "scripted", "scripted"]), seed=r.randrange(2**31 - 1))
   if rs["kind"] == "scripted":
     rs["script"] = r.choice(["const", "cycle", "few", "rowconst"])
-  return dict(run_seed=seed, cls=cls, dataset=desc, params=p, rs=rs, int_data=int_data)
+  plan = dict(run_seed=seed, cls=cls, dataset=desc, params=p, rs=rs, int_data=int_data)
+  if cls == "SCML_Supervised" and p.get("basis") == "lda":
+    rf = substream(seed, "c15-ldafault")
+    if rf.random() < 0.3:
+      plan["lda_fault"] = rf.choice([0, 1, 2, 3, 5, 8, 13])     # the k-th local LDA fit fails
+  return plan
 
 
 def run_plan(plan):
@@ -130,8 +138,10 @@ def run_plan(plan):
         Tidx = Constraints(D.y).generate_knntriplets(args[0].copy(), p["k_genuine"], p["k_impostor"])
       T = D.X[Tidx]
     basis_dg = digest(p["basis"]) if isinstance(p["basis"], np.ndarray) else None
+    lda_fault = plan.get("lda_fault")
     with world.observed() as wl, BasisObserver() as bo, \
-        world.DrawObserver(keep_values=True) as obs, world.ConvertObserver() as co:
+        world.DrawObserver(keep_values=True) as obs, world.ConvertObserver() as co, \
+        world.LdaSeam(fail_at=lda_fault) as ls:
       try:
         est.fit(*args)
         outcome, exc = "ok", None
@@ -139,6 +149,13 @@ def run_plan(plan):
         outcome, exc = "exc:" + type(e).__name__, e
     ev = dict(cls=cls, outcome=outcome, warn=world.warn_cats(wl))
     events.append(ev)
+    if ls.fired:
+      cov["lda_fault_fired"] += 1
+      if outcome != "ok":
+        # a failing local LDA may make the fit fail: the property promises nothing then
+        raise Inconclusive("fit_failed_under_lda_fault")
+      # ... but a fit that returns has a generated basis of n_basis unit-norm rows
+      cov["fit_returned_under_lda_fault"] += 1
     if outcome != "ok":
       if plan["dataset"].get("kind") == "grid" and not isinstance(p["basis"], np.ndarray):
         # integer-grid points (many exact duplicates) can make a *generated* basis
